@@ -67,3 +67,46 @@ _RATOMS = [(r"cstate\.valid\(\)", "valid_c"), (r"\bcstate\b", "1"), (r"\bpstate\
 KERNELS.append(K("src_ret_gd", "src/solver/gd.cpp", _RET, _RATOMS, [], "c02ls", ["C02"]))
 for _n in ("cgd", "lbfgs", "quasi"):
     KERNELS.append(K("src_ret_" + _n, "src/solver/%s.cpp" % _n, _RET, _RATOMS, [("valid_c", "bool")], "c02ls", ["C02"]))
+
+# ---- extension 2 (C02_Bodies): the decisions of the simplest best-state solver bodies: sgm.cpp, cocob.cpp, pdsgm.cpp ------
+# own group "c02b" (Src_c02b.v; C01 does not depend on it). Floating-point comparisons / calls are atoms (booleans supplied by
+# the model, which computes them in binary64); what is translated is HOW the body combines them: the flags handed to
+# solver_t::done on the zero-sub-gradient exit and after an evaluation, the base of std::pow and the iteration counter of sgm,
+# the choice of L0 in cocob, the reset test of pdsgm's model. A comparison operator that changes (`<` -> `<=`) no longer
+# matches its atom: the kernel does not translate (broken tie) and the direct oracle / correspondence gives the input.
+_B = ["C02"]
+_SGM, _COC, _PDS = "src/solver/sgm.cpp", "src/solver/cocob.cpp", "src/solver/pdsgm.cpp"
+_ZERO_S = r"g\.lpNorm<Eigen::Infinity>\(\) < std::numeric_limits<scalar_t>::epsilon\(\)"
+_ZERO_P = r"gx\.lpNorm<Eigen::Infinity>\(\) < std::numeric_limits<scalar_t>::epsilon\(\)"
+_DM = r"::do_minimize\(.*?"
+KERNELS += [
+    # sgm
+    K("src_sgm_zero_exit", _SGM, _DM + r"while \([^{]*\{\s*if \((.*?)\)\s*\{", [(_ZERO_S, "small")], [("small", "bool")], "c02b", _B),
+    K("src_sgm_zero_ok", _SGM, _DM + r"while \([^{]*\{\s*if \([^{]*\{\s*const auto iter_ok\s*=\s*(.*?);", [], [], "c02b", _B),
+    K("src_sgm_zero_conv", _SGM, _DM + r"while \([^{]*\{\s*if \([^{]*\{\s*const auto iter_ok[^;]*;\s*const auto converged\s*=\s*(.*?);", [], [], "c02b", _B),
+    K("src_sgm_pow_base", _SGM, _DM + r"const auto lambda = 1\.0 / std::pow\((.*?), power\);", [], [("iteration", "Z")], "c02b", _B),
+    K("src_sgm_iter_ok", _SGM, _DM + r"update_if_better\(x, g, f\);\s*const auto iter_ok\s*=\s*(.*?);",
+      [(r"std::isfinite\(f\)", "fin")], [("fin", "bool")], "c02b", _B),
+    K("src_sgm_conv", _SGM, _DM + r"update_if_better\(x, g, f\);\s*const auto iter_ok[^;]*;\s*const auto converged\s*=\s*(.*?);",
+      [(r"state\.value_test\(patience\) < epsilon", "below")], [("below", "bool")], "c02b", _B),
+    K("src_sgm_next_iter", _SGM, _DM + r"if \(solver_t::done\(state, iter_ok, converged, logger\)\)\s*\{\s*break;\s*\}\s*(\+\+iteration);",
+      [(r"\+\+iteration", "iteration + 1")], [("iteration", "Z")], "c02b", _B),
+    K("src_sgm_iter0", _SGM, _DM + r"auto iteration = (.*?);", [], [], "c02b", _B),
+    # cocob
+    K("src_cocob_L0", _COC, _DM + r"const auto L0\s*=\s*(.*?);",
+      [(r"function\.smooth\(\)", "smooth"), (r"L0_smooth", "1"), (r"L0_nonsmooth", "0")], [("smooth", "bool")], "c02b", _B),
+    K("src_cocob_iter_ok", _COC, _DM + r"update_if_better\(x, gx, fx\);\s*const auto iter_ok\s*=\s*(.*?);",
+      [(r"std::isfinite\(fx\)", "fin")], [("fin", "bool")], "c02b", _B),
+    K("src_cocob_conv", _COC, _DM + r"update_if_better\(x, gx, fx\);\s*const auto iter_ok[^;]*;\s*const auto converged\s*=\s*(.*?);",
+      [(r"state\.value_test\(patience\) < epsilon", "below")], [("below", "bool")], "c02b", _B),
+    # pdsgm (sda, wda)
+    K("src_pdsgm_zero_exit", _PDS, _DM + r"while \([^{]*\{\s*if \((.*?)\)\s*\{", [(_ZERO_P, "small")], [("small", "bool")], "c02b", _B),
+    K("src_pdsgm_zero_ok", _PDS, _DM + r"while \([^{]*\{\s*if \([^{]*\{\s*const auto iter_ok\s*=\s*(.*?);",
+      [(r"state\.valid\(\)", "valid")], [("valid", "bool")], "c02b", _B),
+    K("src_pdsgm_zero_conv", _PDS, _DM + r"while \([^{]*\{\s*if \([^{]*\{\s*const auto iter_ok[^;]*;\s*const auto converged\s*=\s*(.*?);", [], [], "c02b", _B),
+    K("src_pdsgm_iter_ok", _PDS, _DM + r"update_if_better\(x, gx, fx\);\s*const auto iter_ok\s*=\s*(.*?);",
+      [(r"std::isfinite\(fx\)", "fin")], [("fin", "bool")], "c02b", _B),
+    K("src_pdsgm_conv", _PDS, _DM + r"update_if_better\(x, gx, fx\);\s*const auto iter_ok[^;]*;\s*const auto converged\s*=\s*(.*?);",
+      [(r"state\.value_test\(patience\) < epsilon", "below")], [("below", "bool")], "c02b", _B),
+    K("src_pdsgm_reset", _PDS, r"void updateL\(.*?if \((.*?)\)\s*\{", [(r"gnorm > m_L", "larger")], [("larger", "bool")], "c02b", _B),
+]
